@@ -67,9 +67,10 @@ def menu_entry(k):
     norb = r.choice([3, 4, 4, 4, 5])
     if norb == 3:
         nelec = r.choice([[1, 1], [2, 2]]) if wt == "restricted" else r.choice([[2, 1], [1, 1], [2, 2]])
-    return dict(wt=wt, trial=trial, nelec=nelec, norb=norb, nchol=r.choice([1, 2, 3]), dt=STEP_DTS[k % 4], n_exp_terms=r.choice([4, 6]),
+    m = dict(wt=wt, trial=trial, nelec=nelec, norb=norb, nchol=r.choice([1, 2, 3]), dt=STEP_DTS[k % 4], n_exp_terms=r.choice([4, 6]),
                 n_walkers=r.choice([4, 6]), n_batch=r.choice([1, 2]), kind="ladder" if k % 6 == 5 else ("sampler" if k % 6 == 2 else "history"),
                 n_prop_steps=r.choice([1, 2, 3]), n_ene_blocks=r.choice([1, 2]), n_sr_blocks=r.choice([2, 3]))
+    return lab.corner_override(m, k, 4)
 
 
 def gen_cfg(seed, index, tier):
@@ -79,8 +80,15 @@ def gen_cfg(seed, index, tier):
     m["ham_seed"] = rng.randrange(1, 2**31 - 1)
     m["strength"] = rng.choice([0.2, 0.4, 0.6])
     m["mix"] = rng.choice([0.0, 0.1, 0.3])
-    m["spin_dep"] = m["wt"] == "unrestricted" and rng.random() < 0.6
+    m["spin_dep"] = m["wt"] == "unrestricted" and rng.random() < 0.6 and m.get("trial") != "rhf"
     m["rdm1_kind"] = rng.choice(["own", "arbitrary"])
+    m["rdm1_complex"] = m["rdm1_kind"] == "arbitrary" and random.Random(seed + 31).random() < 0.5
+    # total energies of real molecules: a large constant (nuclear repulsion / frozen core, dt |E| of order 1-10) and a
+    # deep core-like one-body level (dt |h1| of order 1); not in the ladder kind, whose dt range is chosen for
+    # asymptotic behaviour of an order-1 Hamiltonian
+    r41 = random.Random(seed + 41)
+    m["h0_offset"] = r41.choice([0.0, 0.0, 0.0, -480.0, 150.0]) if m["kind"] != "ladder" else 0.0
+    m["core_level"] = r41.choice([0.0, 0.0, 0.0, -30.0]) if m["kind"] != "ladder" else 0.0
     m["h1_antisym"] = rng.choice([0.0, 0.0, 0.0, 0.05])
     m["reuse_ham_data"] = rng.random() < 0.3  # intermediates rebuilt on a dict that was built for another Hamiltonian before
     m["jax_seed"] = rng.randrange(1, 2**20)
@@ -122,6 +130,8 @@ def build(cfg, dt=None):
     spec = {k: cfg[k] for k in ("norb", "nelec", "nchol", "wt", "trial", "n_walkers", "n_batch", "n_exp_terms", "ham_seed", "strength", "mix", "spin_dep")}
     spec["dt"] = cfg["dt"] if dt is None else dt
     spec["h1_antisym"] = cfg.get("h1_antisym", 0.0)
+    spec["h0_offset"] = cfg.get("h0_offset", 0.0)
+    spec["core_level"] = cfg.get("core_level", 0.0)
     s = lab.build_system(spec, harness=False)
     rs = np.random.RandomState((cfg["ham_seed"] + 77) % (2**32 - 1))
     s.ham_data_raw = dict(s.ham_data_raw)
@@ -129,7 +139,12 @@ def build(cfg, dt=None):
     if cfg["rdm1_kind"] == "arbitrary":
         r0 = np.asarray(s.wave_data["rdm1"])
         s.wave_data = dict(s.wave_data)
-        s.wave_data["rdm1"] = jnp.array(r0 + np.array([lab.rand_sym(rs, cfg["norb"], 0.3), lab.rand_sym(rs, cfg["norb"], 0.3)]))
+        r1 = r0 + np.array([lab.rand_sym(rs, cfg["norb"], 0.3), lab.rand_sym(rs, cfg["norb"], 0.3)])
+        if cfg.get("rdm1_complex"):
+            # Hermitian with an imaginary (antisymmetric) part, as the density matrix of complex orbitals is
+            k_ = rs.normal(size=(2, cfg["norb"], cfg["norb"])) * 0.3
+            r1 = r1 + 1j * (k_ - np.transpose(k_, (0, 2, 1)))
+        s.wave_data["rdm1"] = jnp.array(r1)
     s.ham_data = lab.build_intermediates(s, s.plain, reuse=cfg.get("reuse_ham_data", False))
     return s, rs
 
@@ -214,7 +229,7 @@ def compare_step(ctx, cfg, m, opname, up, dn, ov_old, w_old, e_shift, x, pd_new,
             # the matrix condition number and the cancellation factor |state| |psi| / |overlap|, and beyond
             # 1e5 the walker is not refined (counted)
             with np.errstate(all="ignore"):
-                kappa = float(np.linalg.cond(r["up"])) * float(np.linalg.cond(r["dn"]))
+                kappa = lab.cond(r["up"]) * lab.cond(r["dn"])
                 st = m.state(r["up"], r["dn"])
                 canc = float(np.linalg.norm(st) * np.linalg.norm(m.psi) / abs(r["ov_new"])) if abs(r["ov_new"]) > 0 else float("inf")
             kappa = max(kappa, canc)
@@ -223,9 +238,9 @@ def compare_step(ctx, cfg, m, opname, up, dn, ov_old, w_old, e_shift, x, pd_new,
                 continue
             tol = 1e-9 + 1e-10 * kappa
         if fin:
-            scale = max(1.0, float(np.max(np.abs(r["up"]))), float(np.max(np.abs(r["dn"]))))
-            du = float(np.max(np.abs(up2[i] - r["up"])))
-            dd = float(np.max(np.abs(dn2[i] - r["dn"])))
+            scale = max(1.0, lab.amax(r["up"]), lab.amax(r["dn"]))
+            du = lab.amax(up2[i] - r["up"])
+            dd = lab.amax(dn2[i] - r["dn"])
             if not (du <= tol * scale and dd <= tol * scale):
                 _bad(ctx, "phaseless.walker_differs_from_model", site, cfg, op=opname, walker=i, max_abs_diff=max(du, dd), fields=x[i].tolist())
                 return
